@@ -19,7 +19,7 @@
 /* dimension SDS  */
 typedef struct dim_name_t {
     int32 ref;                      /* reference */
-    char  dim_name[H4_MAX_NC_NAME]; /* name */
+    char  dim_name[H4_MAX_NC_NAME + 1]; /* name */
 } dim_name_t;
 
 /* table for dim_name_t */
